@@ -147,3 +147,6 @@ End Top.
 Definition boundedb (G : graph) (l : list nat) : bool := forallb (fun c => Nat.ltb c (length G)) l.
 Definition wf_graphb (paths : list str) (G : graph) : bool :=
   forallb (fun n => boundedb G (kids paths G n)) (seq 0 (length G)).
+(* unique class names among the enumerated object classes (premise of C11_end_to_end) *)
+Definition uniq_namesb (G : graph) (ocs : list nat) : bool :=
+  forallb (fun a => forallb (fun b => implb (str_eqb (class_name G a) (class_name G b)) (Nat.eqb a b)) ocs) ocs.
